@@ -231,8 +231,8 @@ func c10Core(c *mc.Ctx, mtu int, disableStapA, avc bool, raw [][]byte, codes []i
 			if (t == 7 || t == 8) && !disableStapA && !s.InStapA {
 				c.Failf("parameter-set-not-in-stapa", "%s: parameter set type %d was not sent inside a STAP-A although STAP-A is enabled; payloads %s", desc(), t, hxs(payloads))
 			}
-			if s.InStapA && (disableStapA || (t != 7 && t != 8)) {
-				c.Failf("unexpected-stapa", "%s: unit type %d travelled inside a STAP-A; payloads %s", desc(), t, hxs(payloads))
+			if s.InStapA && disableStapA && (t == 7 || t == 8) {
+				c.Failf("unexpected-stapa", "%s: parameter set type %d travelled inside a STAP-A although STAP-A is disabled; payloads %s", desc(), t, hxs(payloads))
 			}
 		}
 	}
